@@ -109,7 +109,8 @@ def compute_crop_calendar(
         else:
             crop.FloweringEnd = ModelConstants.NO_VALUE
             crop.FloweringEndCD = ModelConstants.NO_VALUE
-            crop.FloweringCD = ModelConstants.NO_VALUE
+            # FloweringCD is an input in calendar-day mode (a determinant crop's canopy
+            # development ends at HIstartCD + FloweringCD / 2 above): leave it as given
 
         # Check if converting crop calendar to gdd mode
         if crop.SwitchGDD == 1:
